@@ -41,7 +41,7 @@ PROPERTIES = {
              'the parameter resolution cannot panic and bounds every chunk size by the known input length (no position wrap-around). '
              'Not decided: functional correctness of the merge for every key multiset, equality over all inputs.'),
     'C02': P('find/first/any/all answer with the first match in source order',
-             ['C02-MINIDX', 'C02-IDX', 'C02-FIRST', 'C02-ACCEPT', 'C02-ANYALL', 'C01-COMPOSE', 'S2', 'S4', 'S5', 'C15-CLAMP', 'C15-CHUNKCAP', 'C15-CHUNKCAP-U', 'C01-FRESH', 'C02-FRESHSEQ', 'C05-SOURCE', 'C05-WORKER', 'C01-KEEP', 'C01-NOSHUFFLE', 'C02-EAGERIDX'],
+             ['C02-MINIDX', 'C02-IDX', 'C02-FIRST', 'C02-ACCEPT', 'C02-ANYALL', 'C01-COMPOSE', 'S2', 'S4', 'S5', 'C15-CLAMP', 'C15-CHUNKCAP', 'C15-CHUNKCAP-U', 'C01-FRESH', 'C02-FRESHSEQ', 'C05-SOURCE', 'C05-WORKER', 'C01-KEEP', 'C01-NOSHUFFLE', 'C02-EAGERIDX', 'C02-EXHAUST'],
              STATIC + 'Decided: the cross-thread reduction of find results is min-by-index on its whole finite domain; reported indices '
              'originate from the pull position; each task returns its own first match, searched with exactly the user filter as acceptance test; any/all/find_with_index wiring. '
              'Not decided: the schedule quantifier itself (discharged compositionally through T3).'),
@@ -60,7 +60,7 @@ PROPERTIES = {
              'iterators enter only through the serialising wrapper, built from the whole collection; skip_to_end is raised only by find tasks holding '
              'a match; a chain carrying a user closure is never consumed by len/size_hint/is_empty. Not decided: ConIterOfIter really serialises next().'),
     'C06': P('collect_into appends to, and never disturbs, existing contents',
-             ['C06-RECV', 'C06-MUT', 'C06-OFFSET', 'C06-GROW', 'C06-BRIDGE', 'C01-RESERVE', 'C01-KEY', 'C05-FEED', 'C05-CONSUME', 'C01-NOSHUFFLE'],
+             ['C06-RECV', 'C06-MUT', 'C06-OFFSET', 'C06-GROW', 'C06-BRIDGE', 'C01-RESERVE', 'C01-KEY', 'C05-FEED', 'C05-CONSUME', 'C01-NOSHUFFLE', 'C01-MERGE'],
              STATIC + 'Decided: a by-value target is never dropped on a normal path and the result depends on it; &mut targets only receive '
              'appends; the write offset is the target length taken before the run; the reservation before every positional conversion covers existing '
              '+ incoming elements; nothing is appended onto a FixedVec directly; no bridge vector the crate builds by a data conversion goes through the reservation. Not decided: dependency conversions keep contents.'),
@@ -80,7 +80,7 @@ PROPERTIES = {
              'like std (first minimum, last maximum); no stage is re-parameterised by the library; a composed closure shows a stage only the elements the earlier stages let through. '
              'Not decided: into_seq_iter order (T3).'),
     'C10': P('short-circuit terminals stop consuming input once a match is known',
-             ['C10-SIGNAL', 'C10-NOPULL', 'C10-LAZYSEQ', 'C10-LAZYINNER', 'C10-STOPSPAWN', 'C10-CHUNKDEP', 'C02-FIRST', 'S4', 'C16'],
+             ['C10-SIGNAL', 'C10-NOPULL', 'C10-LAZYSEQ', 'C10-LAZYINNER', 'C10-STOPSPAWN', 'C10-CHUNKDEP', 'C02-FIRST', 'S4', 'C16', 'C15-CHUNKCAP'],
              STATIC + 'Decided: every path of a find task that may return a match raised skip_to_end first; no pull is reachable after a '
              'match; sequential find kernels are lazy; composed closures never drain an iterator fed by a user closure; the spawn loop stops when the source is exhausted. '
              'Not decided: liveness under a fair scheduler (T3: skip_to_end makes later pulls return None).'),
@@ -96,7 +96,7 @@ PROPERTIES = {
              'and the library itself never calls a setter.',
              assumes=('T1', 'T4')),
     'C13': P('owned elements are dropped exactly once on all non-panicking paths',
-             ['C13-INVENTORY', 'C13-PAIR', 'C13-UNWRAP', 'C13-LEAK', 'C06-RECV', 'C05-VISIT', 'C15-CHUNKCAP'],
+             ['C13-INVENTORY', 'C13-PAIR', 'C13-UNWRAP', 'C13-LEAK', 'C06-RECV', 'C05-VISIT', 'C15-CHUNKCAP', 'C01-RESERVE'],
              STATIC + 'Decided: the inventory of ownership primitives is exactly the reviewed one; every raw read is paired with the '
              'length reset and its slot is read once; bags are unwrapped only through the counts-match check; leak primitives only at '
              'the re-owned site. Not decided: drop counts themselves; dependency drop behaviour (T3).'),
@@ -108,7 +108,7 @@ PROPERTIES = {
              '(a dead worker advances nothing) and no blocking primitive is called; no chain closure is moved into the serialised source of a '
              'concurrent iterator. Not decided: thread::scope re-raises (T2).'),
     'C15': P('parameters never change a result or make a computation fail',
-             ['C15-OBLIG', 'C15-CLAMP', 'C15-ALLOC', 'C15-CHUNKCAP', 'C15-CHUNKCAP-U', 'C15-STACK', 'C15-TIES', 'C01-KEY', 'C01-MERGE', 'C02-MINIDX', 'C02-FIRST', 'C03-THREAD', 'C03-OUTER', 'C03-MAYBE', 'C04-THREAD', 'C04-SUM', 'C05-VISIT', 'C07-FRAG', 'S2', 'S4', 'S5', 'C15-TERMINATE', 'C01-RESERVE', 'C06-BRIDGE', 'C05-SEED'],
+             ['C15-OBLIG', 'C15-CLAMP', 'C15-ALLOC', 'C15-CHUNKCAP', 'C15-CHUNKCAP-U', 'C15-STACK', 'C15-TIES', 'C01-KEY', 'C01-MERGE', 'C02-MINIDX', 'C02-FIRST', 'C03-THREAD', 'C03-OUTER', 'C03-MAYBE', 'C04-THREAD', 'C04-SUM', 'C05-VISIT', 'C07-FRAG', 'S2', 'S4', 'S5', 'C15-TERMINATE', 'C01-RESERVE', 'C06-BRIDGE', 'C05-SEED', 'C02-EXHAUST', 'C01-NOSHUFFLE'],
              STATIC + 'Decided: every panic site (overflow/div-by-zero assertion, expect, assert) of the parameter-resolution slice that '
              'depends on the configuration is discharged by a dominating guard, a constructor invariant, an arithmetic lemma or a stated '
              'assumption; every size handed to an allocating API and, for sources of known length, every resolved chunk size is bounded by the '
